@@ -85,10 +85,14 @@ pub fn copy_owner(infd: &File, outfd: &File) -> Result<()> {
 }
 
 pub(crate) fn read_bytes(fd: &File, buf: &mut [u8], off: usize) -> Result<usize> {
+    #[cfg(xcp_verif)]
+    use crate::verif::pread;
     Ok(pread(fd, buf, off as u64)?)
 }
 
 pub(crate) fn write_bytes(fd: &File, buf: &mut [u8], off: usize) -> Result<usize> {
+    #[cfg(xcp_verif)]
+    use crate::verif::pwrite;
     Ok(pwrite(fd, buf, off as u64)?)
 }
 
@@ -128,6 +132,8 @@ pub(crate) fn copy_bytes_uspace(mut reader: &File, mut writer: &File, nbytes: us
     let mut written = 0;
     while written < nbytes {
         let next = cmp::min(nbytes - written, nbytes);
+        #[cfg(xcp_verif)]
+        let next = crate::verif::clamp("read", None, next as u64) as usize;
         let len = match reader.read(&mut buf[..next]) {
             Ok(0) => return Err(Error::InvalidSource("Source file ended prematurely.")),
             Ok(len) => len,
